@@ -30,3 +30,4 @@ def rules(ctx):
     S.untracked_allocation_rules(ctx)
     S.after_bound_rules(ctx)
     S.extract_state_rules(ctx)
+    S.survey2_rules(ctx)
